@@ -173,13 +173,16 @@ func isLibNilSafe(fn *ssa.Function) bool { return false }
 
 func (x *Exec) autoInlineOK(fn *ssa.Function) bool {
 	n := 0
+	loops := 0
 	for _, b := range fn.Blocks {
 		n += len(b.Instrs)
 		if isLoopHeader(b) {
-			return false
+			// a helper with a loop is inlined too: its loop is cut at the header like any other (invariant from a
+			// `loop` contract keyed by the helper's name, else `true` with everything the body writes havoc'd)
+			loops++
 		}
 	}
-	if n > 80 {
+	if n > 80 || loops > 2 {
 		return false
 	}
 	// no (direct) recursion
